@@ -145,4 +145,116 @@ theorem mixKernel_isMarkov (w : ι → ℝ≥0∞) (κ : ι → ProbabilityTheor
 
 end general
 
+/-! ## proposals that have a density w.r.t. a reference KERNEL (blocks, coordinates, pCN-type) -/
+
+section reference
+variable {X : Type*} [MeasurableSpace X]
+
+/-- **Reversibility for a symmetric reference kernel.**  If `lam(dx) ρ(x,dy)` is symmetric under
+    `(x,y) ↦ (y,x)` (`SymmRef`; e.g. `ρ = const lam` by Tonelli, a one-block / one-coordinate
+    reference, or any proposal kernel reversible w.r.t. `lam` such as the pCN proposal w.r.t. the
+    Gaussian prior), then the MH kernel with proposal `q(x,·) • ρ(x,·)` and target `π • lam` is
+    reversible.  `mh_reversible_density` is the instance `ρ = const lam`. -/
+theorem mhKernelR_isReversible {lam : Measure X} {ρ : ProbabilityTheory.Kernel X X} [IsSFiniteKernel ρ]
+    (hρ : SymmRef lam ρ) (π : X → ℝ) (q : X → X → ℝ)
+    (hπ : Measurable π) (hq : Measurable (Function.uncurry q)) (hπ0 : ∀ x, 0 ≤ π x)
+    (hq0 : ∀ x y, 0 ≤ q x y) : (mhKernelR ρ π q).IsReversible (targetMeasure lam π) :=
+  accKernelR_isReversible' hρ hπ hq (measurable_mhAlphaD hπ hq) hπ0 (mhAlphaD_balance hπ0 hq0)
+
+/-- … it is a Markov kernel when `q(x,·)` is a probability density w.r.t. `ρ(x,·)` … -/
+theorem mhKernelR_isMarkov (ρ : ProbabilityTheory.Kernel X X) [IsSFiniteKernel ρ] (π : X → ℝ)
+    (q : X → X → ℝ) (hπ : Measurable π) (hq : Measurable (Function.uncurry q)) (hq0 : ∀ x y, 0 ≤ q x y)
+    (hq1 : ∀ x, ∫⁻ y, ENNReal.ofReal (q x y) ∂ρ x = 1) : IsMarkovKernel (mhKernelR ρ π q) :=
+  ⟨fun x => ⟨accKernelR_univ ρ hq (measurable_mhAlphaD hπ hq) hq0 (mhAlphaD_le_one π q) hq1 x⟩⟩
+
+/-- … and then leaves `π • lam` invariant. -/
+theorem mhKernelR_invariant {lam : Measure X} {ρ : ProbabilityTheory.Kernel X X} [IsSFiniteKernel ρ]
+    (hρ : SymmRef lam ρ) (π : X → ℝ) (q : X → X → ℝ)
+    (hπ : Measurable π) (hq : Measurable (Function.uncurry q)) (hπ0 : ∀ x, 0 ≤ π x)
+    (hq0 : ∀ x y, 0 ≤ q x y) (hq1 : ∀ x, ∫⁻ y, ENNReal.ofReal (q x y) ∂ρ x = 1) :
+    (mhKernelR ρ π q).Invariant (targetMeasure lam π) := by
+  have := mhKernelR_isMarkov ρ π q hπ hq hq0 hq1
+  exact (mhKernelR_isReversible hρ π q hπ hq hπ0 hq0).invariant
+
+/-- the classical case is an instance (definitional) -/
+theorem mhKernelD_eq_mhKernelR (lam : Measure X) [SFinite lam] (π : X → ℝ) (q : X → X → ℝ) :
+    mhKernelD lam π q = mhKernelR (ProbabilityTheory.Kernel.const X lam) π q := rfl
+
+/-- **One-block update (Metropolis-within-Gibbs) on a product space `Y × Z`:** the first block is
+    proposed from a density w.r.t. `lamY` (which may depend on the whole current state), the second
+    block is kept; reversible w.r.t. `π • (lamY ⊗ lamZ)`. -/
+theorem mh_block_reversible_density {Y Z : Type*} [MeasurableSpace Y] [MeasurableSpace Z]
+    (lamY : Measure Y) [SFinite lamY] (lamZ : Measure Z) [SFinite lamZ]
+    (π : Y × Z → ℝ) (q : Y × Z → Y × Z → ℝ)
+    (hπ : Measurable π) (hq : Measurable (Function.uncurry q)) (hπ0 : ∀ x, 0 ≤ π x)
+    (hq0 : ∀ x y, 0 ≤ q x y) :
+    (mhKernelR (blockRef lamY) π q).IsReversible (targetMeasure (lamY.prod lamZ) π) :=
+  mhKernelR_isReversible (symmRef_block lamY lamZ) π q hπ hq hπ0 hq0
+
+end reference
+
+/-! ## component-wise Metropolis–Hastings on `ℝ^(n+1)` (the CWMH loop) -/
+
+section cwmh
+variable {n : ℕ}
+
+/-- **What one CWMH iteration does, as a kernel.** With `x[j := t] = Function.update x j t`:
+    `K_j(x, A) = ∫ 1_A(x[j:=t]) q(x, x[j:=t]) α(x, x[j:=t]) dt + r(x) 1_A(x)` — the proposal
+    differs from `x` in coordinate `j` only (`cwmh_component`), accepted with the MH probability. -/
+theorem cwKernel_apply (j : Fin (n + 1)) (π : (Fin (n + 1) → ℝ) → ℝ)
+    (q : (Fin (n + 1) → ℝ) → (Fin (n + 1) → ℝ) → ℝ) (hπ : Measurable π)
+    (hq : Measurable (Function.uncurry q)) (x : Fin (n + 1) → ℝ) {A : Set (Fin (n + 1) → ℝ)}
+    (hA : MeasurableSet A) :
+    cwKernel j π q x A
+      = (∫⁻ t, A.indicator (fun y => ENNReal.ofReal (q x y * mhAlphaD π q x y)) (Function.update x j t))
+        + (1 - ∫⁻ t, ENNReal.ofReal (q x (Function.update x j t) * mhAlphaD π q x (Function.update x j t)))
+          * A.indicator 1 x := by
+  have ha := measurable_mhAlphaD hπ hq
+  have hm : Measurable (fun y => moveDens q (mhAlphaD π q) x y) :=
+    (measurable_moveDens hq ha).comp measurable_prodMk_left
+  unfold cwKernel mhKernelR
+  rw [accKernelR_apply _ hq ha x hA, ← lintegral_indicator hA, lintegral_coordRef j x (hm.indicator hA)]
+  unfold rejProbR
+  rw [lintegral_coordRef j x hm]
+  rfl
+
+/-- **`cwmh_reversible_density`.** Every single-coordinate MH kernel on `ℝ^(n+1)` — any measurable
+    target density `π ≥ 0` w.r.t. Lebesgue measure, any jointly measurable proposal density
+    `q ≥ 0` for the new coordinate — is reversible w.r.t. `π • volume`. -/
+theorem cwmh_reversible_density (j : Fin (n + 1)) (π : (Fin (n + 1) → ℝ) → ℝ)
+    (q : (Fin (n + 1) → ℝ) → (Fin (n + 1) → ℝ) → ℝ) (hπ : Measurable π)
+    (hq : Measurable (Function.uncurry q)) (hπ0 : ∀ x, 0 ≤ π x) (hq0 : ∀ x y, 0 ≤ q x y) :
+    (cwKernel j π q).IsReversible (targetMeasure volume π) :=
+  mhKernelR_isReversible (symmRef_coord j) π q hπ hq hπ0 hq0
+
+/-- a single-coordinate MH kernel is a Markov kernel when `t ↦ q(x, x[j:=t])` is a probability
+    density on `ℝ` for every `x` -/
+theorem cwKernel_isMarkov (j : Fin (n + 1)) (π : (Fin (n + 1) → ℝ) → ℝ)
+    (q : (Fin (n + 1) → ℝ) → (Fin (n + 1) → ℝ) → ℝ) (hπ : Measurable π)
+    (hq : Measurable (Function.uncurry q)) (hq0 : ∀ x y, 0 ≤ q x y)
+    (hq1 : ∀ x, ∫⁻ t, ENNReal.ofReal (q x (Function.update x j t)) = 1) :
+    IsMarkovKernel (cwKernel j π q) := by
+  apply mhKernelR_isMarkov _ π q hπ hq hq0
+  intro x
+  have := lintegral_coordRef j x (g := fun y => ENNReal.ofReal (q x y))
+    ((hq.comp measurable_prodMk_left).ennreal_ofReal)
+  rw [this]
+  exact hq1 x
+
+/-- **`cwmh_sweep_invariant_density`.** The deterministic sweep over ANY list of coordinates
+    (CUQIpy: `for j in range(dim)`, `cwStep_eq_fold`) of single-coordinate MH kernels, each with
+    its own proposal density (per-component scales), leaves `π • volume` invariant. -/
+theorem cwmh_sweep_invariant_density (js : List (Fin (n + 1))) (π : (Fin (n + 1) → ℝ) → ℝ)
+    (q : Fin (n + 1) → (Fin (n + 1) → ℝ) → (Fin (n + 1) → ℝ) → ℝ) (hπ : Measurable π)
+    (hπ0 : ∀ x, 0 ≤ π x) (hq : ∀ j, Measurable (Function.uncurry (q j))) (hq0 : ∀ j x y, 0 ≤ q j x y)
+    (hq1 : ∀ j x, ∫⁻ t, ENNReal.ofReal (q j x (Function.update x j t)) = 1) :
+    (sweepKernel (js.map (fun j => cwKernel j π (q j)))).Invariant (targetMeasure volume π) := by
+  apply sweep_invariant
+  intro κ hκ
+  obtain ⟨j, _, rfl⟩ := List.mem_map.1 hκ
+  have := cwKernel_isMarkov j π (q j) hπ (hq j) (hq0 j) (hq1 j)
+  exact (cwmh_reversible_density j π (q j) hπ (hq j) hπ0 (hq0 j)).invariant
+
+end cwmh
+
 end CuqiVerif.C02
